@@ -115,6 +115,13 @@ PROPS["C15"] = {
                    "reports 200 only when the handler's set_value returned. The configparser / dulwich-config file round trips "
                    "are ASSUMED (bounded conformance only).",
 }
+CONFIG_EXPLORE = "config_explore.py"
+PROPS["C15"]["bounded_always"] = {"xandikos.store.git.GitStore.config": {
+    "driver": CONFIG_EXPLORE,
+    "bound": "3 metadata back ends (versioned .xandikos file in tree-git and bare-git, git config section) x displayname / description / "
+             "comment / color x value grammar with configuration-file metacharacters (quick: 25 values, thorough: + all two-atom "
+             "combinations of 18 atoms): set, read, restart, read, other collection and members untouched, remove. Stands in for the "
+             "ASSUMED configparser / dulwich-config write-read round trip."}}
 PROPS["C14"] = {
     "level": "other",
     "functions": ["xandikos.icalendar.validate_component", "xandikos.icalendar.ICalendarFile.validate",
